@@ -193,7 +193,7 @@ def to_str(I, v):
     """str(v) / format(v)"""
     if isinstance(v, VStr):
         if v.is_bytes:
-            raise Unsupported('str(bytes)')
+            return VStr(fn('py_repr_bytes', S(), S())(v.t))
         return v
     if isinstance(v, VInt):
         return VStr(int_to_str(v.t))
